@@ -97,6 +97,23 @@ def handle : List String → String
       | .ok r => "ok " ++ encList r ++ " " ++ encOpt (cdName m1 m2)
       | .error e => encExc e ++ " " ++ encOpt (cdName m1 m2)
     | _, _, _, _, _, _, _, _ => "bad-arg"
+  | ["opts", modes, ml, nurls, pr, rc, d] =>
+    match decList? modes, ml.toInt?, nurls.toNat?, decB? pr, decB? rc with
+    | some ms, some ml, some n, some pr, some rc =>
+      let toMode : Nat → Option Mode := fun
+        | 0 => some .windows | 1 => some .unix | 2 => some .lower | 3 => some .upper
+        | 4 => some .ascii | 5 => some .nocontrol | _ => none
+      let dopt : Option DirOpt := match d with
+        | "unset" => some .unset | "force" => some .force | "no" => some .no | _ => none
+      match ms.mapM toMode, dopt with
+      | some ms, some d =>
+        let c := optionsToCfg ms ml
+        (match c.os with | .unix => "unix" | .windows => "windows" | .other => "other") ++ " " ++
+          encBool c.noControl ++ " " ++ encBool c.asciiOnly ++ " " ++
+          (match c.case with | .none => "none" | .lower => "lower" | .upper => "upper") ++ " " ++
+          toString c.maxLen ++ " " ++ encBool (useDirOf n pr rc d)
+      | _, _ => "bad-arg"
+    | _, _, _, _, _ => "bad-arg"
   | _ => "bad-op"
 
 end Wpull.Path
